@@ -12,7 +12,7 @@ import sys
 ID = "C11"
 LEVEL = "exploration"
 BUDGET = {"quick": 55, "thorough": 900}
-QUICK_CASES = 1500
+QUICK_CASES = 1200
 FLOOR = {"quick": 500, "thorough": 5000}
 TIMEOUT = 120
 REQUIRED_OBS = ["programs", "files", "import_edges", "cross_context_calls", "raising_cross_calls", "callbacks_into_caller_file", "entries_run", "entries_via_trigger", "entries_via_service", "entries_via_task", "global_tables_compared", "module_singleton_checks", "jupyter_contexts", "star_imports", "relative_imports", "sibling_relative_imports", "scoped_functions", "scoped_calls", "expression_triggers", "foreign_decorated_triggers", "expression_trigger_runs"]
